@@ -215,6 +215,19 @@ class Model:
                     m.symbols[st.name] = Sym("func", st, m.name)
                 elif isinstance(st, ast.Assign):
                     for t in st.targets:
+                        if isinstance(t, (ast.Tuple, ast.List)) and all(isinstance(x, ast.Name) for x in t.elts):
+                            # `A, B, C = 46, 48, 50` (or `= f()`): every name is bound to its element of the value
+                            for i_, x in enumerate(t.elts):
+                                if isinstance(st.value, (ast.Tuple, ast.List)) and len(st.value.elts) == len(t.elts) and not any(isinstance(v_, ast.Starred) for v_ in st.value.elts):
+                                    node_ = st.value.elts[i_]
+                                else:
+                                    node_ = ast.copy_location(ast.Subscript(value=st.value, slice=ast.copy_location(ast.Constant(i_), st.value), ctx=ast.Load()), st.value)
+                                s = m.symbols.get(x.id)
+                                if s is None or s.kind != "assign":
+                                    s = Sym("assign", node_, m.name, name=x.id)
+                                    m.symbols[x.id] = s
+                                s.node = node_
+                                s.values.append(node_)
                         if isinstance(t, ast.Name):
                             s = m.symbols.get(t.id)
                             if s is None or s.kind != "assign":
